@@ -25,7 +25,7 @@ pub const INFO: PropInfo = PropInfo {
         "Vary and the answer to OPTIONS without Access-Control-Request-Method are open",
         "requests whose routing is ambiguous under C01's two readings are not judged",
     ],
-    expected_probes: &["c14.preflight_ok", "c14.preflight_unregistered_method", "c14.preflight_unknown_path", "c14.simple_hit", "c14.simple_404", "c14.simple_500", "c14.credentials_on", "c14.wildcard_origin", "c14.echoed_request_headers", "c14.split_registration", "c14.mounted_route_preflight", "c14.empty_allow_list_with_requested_headers"],
+    expected_probes: &["c14.preflight_ok", "c14.preflight_unregistered_method", "c14.preflight_unknown_path", "c14.simple_hit", "c14.simple_404", "c14.simple_500", "c14.credentials_on", "c14.wildcard_origin", "c14.echoed_request_headers", "c14.split_registration", "c14.mounted_route_preflight", "c14.empty_allow_list_with_requested_headers", "c14.policies_built_earlier_in_the_process"],
 };
 
 #[derive(Clone, Debug, Serialize, Deserialize)]
@@ -53,6 +53,9 @@ pub struct Scenario {
     pub policy: Policy,
     pub app: AppSpec,
     pub reqs: Vec<Req>,
+    /// policies built (and dropped) earlier in the same process: what a builder remembers must not leak into the next policy
+    #[serde(default)]
+    pub earlier: Vec<Policy>,
 }
 
 const HDRS: [&str; 5] = ["Content-Type", "X-Custom", "Authorization", "X-Requested-With", "Accept"];
@@ -136,7 +139,14 @@ pub fn generate(cfg: &RunCfg, out: &mut Outcome) -> Scenario {
             r
         })
         .collect();
-    Scenario { policy, app, reqs }
+    let earlier: Vec<Policy> = if t::chance(1, 3) {
+        (0..1 + t::draw(2))
+            .map(|_| Policy { origin: if t::chance(2, 3) { "*".to_string() } else { "https://earlier.example".to_string() }, credentials: t::chance(3, 4), allow_headers: None, expose_headers: if t::chance(1, 2) { Some(vec!["X-Earlier".to_string()]) } else { None }, max_age: None })
+            .collect()
+    } else {
+        Vec::new()
+    };
+    Scenario { policy, app, reqs, earlier }
 }
 
 pub fn run(cfg: &RunCfg, direct: Option<&serde_json::Value>) -> Outcome {
@@ -230,7 +240,15 @@ fn execute(sc: &Scenario, out: &mut Outcome) {
     }
     let table = appgen::table(&sc.app);
     appgen::ERRORING.with(|e| e.set(true));
-    let built = std::panic::catch_unwind(std::panic::AssertUnwindSafe(|| appgen::build_root_with(&sc.app, (build_cors(&sc.policy),))));
+    if !sc.earlier.is_empty() {
+        out.probe("c14.policies_built_earlier_in_the_process");
+    }
+    let built = std::panic::catch_unwind(std::panic::AssertUnwindSafe(|| {
+        for e in &sc.earlier {
+            drop(build_cors(e));
+        }
+        appgen::build_root_with(&sc.app, (build_cors(&sc.policy),))
+    }));
     let app = match built {
         Ok(a) => a,
         Err(_) => {
